@@ -6,6 +6,10 @@ git merge --no-commit --no-ff "$1" >/dev/null 2>&1 || true
 git checkout --ours lean/Percival.lean lean/Main.lean 2>/dev/null || true
 python3 tools/gen_main.py
 git add lean/Percival.lean lean/Main.lean
+# evidence files are rewritten by the checks: keep ours, the check is re-run after the merge
+for f in $(git diff --name-only --diff-filter=U | grep '^evidence/' || true); do
+  git checkout --ours "$f" 2>/dev/null || git rm -q --cached "$f"; git add "$f" 2>/dev/null || true
+done
 if git diff --name-only --diff-filter=U | grep -q .; then
   echo "UNRESOLVED:"; git diff --name-only --diff-filter=U; exit 1
 fi
